@@ -13,6 +13,7 @@ import (
 	"verif/harness/checks/c13"
 	"verif/harness/checks/c14"
 	"verif/harness/checks/c15"
+	"verif/harness/checks/c18"
 	"verif/harness/checks/c19"
 )
 
@@ -29,5 +30,6 @@ func init() {
 	register("C13", "exploration", c13.Run, c13.Replay)
 	register("C14", "model_checking", c14.Run, c14.Replay)
 	register("C15", "model_checking", c15.Run, c15.Replay)
+	register("C18", "exploration", c18.Run, c18.Replay)
 	register("C19", "model_checking", c19.Run, c19.Replay)
 }
